@@ -336,6 +336,7 @@ func rulesC12(c *Ctx) {
 	c.Rule("C12.allsources", "in RewriteFields no loop over the statement's sources is left by `break`: a loop that stops at the first source of another kind leaves the subqueries after it unexpanded and untyped, and the result depends on the order the sources are written in")
 	loopNoBreak(c, "C12.allsources", p.Method("SelectStatement", "RewriteFields"), "(*SelectStatement).RewriteFields", "Sources", "the loop over the sources is left by break: sources after that point are not rewritten")
 	sourceMemoRule(c, "C12.sourcememo")
+	handedMapRule(c, "C12.handedmap")
 }
 
 // phaseOrderC12: subqueries are rewritten before the outer statement's
